@@ -26,13 +26,21 @@ def sizes(rnd, thorough):
     return rnd.choice(base)
 
 
-def one(sid, rnd, kinds, thorough):
-    s = Scn(sid, ext=[], timeout_ms=400)
-    s.meta(family="roundtrip", kinds=kinds)
-    s.init()
-    s.await_exec(kind="rt", n=1)
+def one(sid, rnd, kinds, thorough, fe=False):
+    """fe: the invocations enter through the HTTP front end (cmd/aws-lambda-rie InvokeHandler): the first request
+    initialises the sandbox, the function timeout is whole seconds, extra kinds 'badctx' (client context header that
+    is not base64: 500, sandbox untouched) and 'second' (a second request while one is in flight: 400)"""
+    if fe:
+        s = Scn(sid, ext=[], timeout_ms=1000, frontEnd=True, opWaitMs=8000)
+        s.meta(family="frontend", kinds=kinds)
+    else:
+        s = Scn(sid, ext=[], timeout_ms=400)
+        s.meta(family="roundtrip", kinds=kinds)
+        s.init()
+        s.await_exec(kind="rt", n=1)
     nexec = 1
-    cold = rnd.random() < 0.5
+    boot = fe
+    cold = fe or rnd.random() < 0.5
     if cold:
         # cold start: the first invocation arrives while the runtime is still initialising (first poll 50 ms later)
         polltag = None
@@ -41,7 +49,15 @@ def one(sid, rnd, kinds, thorough):
     fresh = False
     for j, kind in enumerate(kinds):
         ctx = "ctx-%d-%s" % (j, "x" * rnd.randrange(0, 40)) if rnd.random() < 0.5 else ""
-        it = s.invoke(size=(3 * 1024 * 1024 if kind == "abort" else sizes(rnd, thorough)), seed=rnd.randrange(1, 10 ** 6), ctx=ctx)
+        if kind == "badctx":
+            s.invoke(async_=False, size=3, seed=rnd.randrange(1, 10 ** 6), badCtx=True)
+            continue
+        trace = "Root=1-%08x-abcdef012345678912345678" % rnd.randrange(1, 2 ** 31) if fe and rnd.random() < 0.5 else ""
+        it = s.invoke(size=(3 * 1024 * 1024 if kind == "abort" else sizes(rnd, thorough)), seed=rnd.randrange(1, 10 ** 6), ctx=ctx,
+                      **({"trace": trace} if trace else {}))
+        if boot:
+            s.await_exec(kind="rt", n=1)
+            boot = False
         if polltag is None:
             s.sleep(50)
             polltag = s.call("rt", "next", async_=True)
@@ -62,6 +78,12 @@ def one(sid, rnd, kinds, thorough):
             # a repeated poll before responding returns the same invocation again
             t2 = s.call("rt", "next", async_=True)
             s.wait(t2)
+            s.call("rt", "response", id="current", size=sizes(rnd, thorough), seed=rnd.randrange(1, 10 ** 6))
+            polltag = s.poll("rt")
+            s.wait(it)
+        elif kind == "second":
+            # a second request while this one is in flight is refused and changes nothing
+            s.invoke(async_=False, caller=2, size=4, seed=rnd.randrange(1, 10 ** 6))
             s.call("rt", "response", id="current", size=sizes(rnd, thorough), seed=rnd.randrange(1, 10 ** 6))
             polltag = s.poll("rt")
             s.wait(it)
@@ -87,6 +109,17 @@ def one(sid, rnd, kinds, thorough):
     return s.done()
 
 
+def fe_scenarios(ctx, prefix="c01"):
+    rnd = random.Random(ctx.seed * 7919 + 11)
+    hist = [["ok", "ok"], ["error"], ["timeout"], ["exit"], ["oversize"], ["repoll"], ["badctx", "ok"], ["second"],
+            ["timeout", "error"], ["exit", "second"], ["ok", "badctx", "timeout"]]
+    if not ctx.quick:
+        kinds = ["ok", "error", "oversize", "timeout", "exit", "repoll", "badctx", "second"]
+        hist += [[a, b] for a in kinds for b in kinds]
+        hist += [[rnd.choice(kinds) for _ in range(rnd.randrange(3, 6))] for _ in range(30)]
+    return [one("%s-fe%03d" % (prefix, i + 1), rnd, h + ["ok"], not ctx.quick and i % 7 == 0, fe=True) for i, h in enumerate(hist)]
+
+
 def scenarios(ctx):
     rnd = random.Random(ctx.seed * 31337 + 1)
     out = []
@@ -108,10 +141,14 @@ def scenarios(ctx):
 
 def run(ctx):
     ctx.level = "model_checking"
+    sc.frontend_model(ctx)
     # E1: the property predicates as invariants of the composite (spec/MC_Rapid.tla)
     mcrapid.check(ctx, ['OkHasBody', 'StreamOwnerIsReserver', 'NoGhostInvoke'])
     ctx.assumptions += sc.ASSUME
     sc.run_families(ctx, scenarios(ctx), "roundtrip")
+    # the same histories through the real HTTP front end (cmd/aws-lambda-rie InvokeHandler), validated against
+    # Trace_Rapid (core events) and Trace_FrontEnd (the handler's own steps and its status mapping)
+    sc.run_families(ctx, fe_scenarios(ctx), "frontend")
     ctx.coverage["exhaustive"] = False
 
 
